@@ -1,6 +1,8 @@
 import PtnModel.Driver.Util
 import PtnModel.Driver.Bipartite
+import PtnModel.Driver.OpGraph
 import PtnModel.Driver.BondOps
+import PtnModel.Driver.MPS
 /-!
 Line-protocol driver: one JSON object per input line (`{"op": name, ...}`), one JSON line out.
 Compiled to `.lake/build/bin/ptndriver`; imports nothing from Mathlib.
@@ -9,7 +11,9 @@ open Lean Ptn.Drv
 
 def handlers : List Handler := [
   Ptn.Drv.Bipartite.handle,
-  Ptn.Drv.BondOps.handle
+  Ptn.Drv.OpGraph.handle,
+  Ptn.Drv.BondOps.handle,
+  Ptn.Drv.MPSDrv.handle
 ]
 
 def dispatch (line : String) : String :=
